@@ -48,6 +48,10 @@ Proof. exact fault_raises. Qed.
 Theorem C07_unlink_always : unlink_in_finally = true.
 Proof. exact unlink_true. Qed.
 
+(* ... and terminates its worker pool before re-raising, so that nothing is left to block the calling process *)
+Theorem C07_pool_terminated_on_failure : terminate_on_failure = true.
+Proof. exact terminate_true. Qed.
+
 (* what the hypotheses of `good` buy: without them the protocol can hang *)
 Theorem C07_small_pool_deadlocks : forall c, (1 <= pool c)%nat -> (pool c < n c)%nat -> w1 c = true ->
   exists s, reachable c s /\ final s = false /\ forall i a, step c s i a = None.
